@@ -6,7 +6,7 @@ cd $wt && git checkout -q -- . && git apply /verif/seeded/$name/patch.diff || { 
 cd /verif
 for pid in "$@"; do
   echo "=== $name : $pid"
-  VERIF_REPO=$wt ./check $pid --tier ${TIER:-quick} 2>&1 | grep -E "VIOLATION|KNOWN|INCONCL|^\[C|^  " | head -${LINES_MAX:-12}
+  VERIF_REPO=$wt VERIF_EVIDENCE_DIR=/var/tmp/verif-seed-evidence ./check $pid --tier ${TIER:-quick} 2>&1 | grep -E "VIOLATION|KNOWN|INCONCL|^\[C|^  " | head -${LINES_MAX:-12}
   echo "exit=${PIPESTATUS[0]}"
 done
 cd $wt && git checkout -q -- .
